@@ -541,6 +541,8 @@ def run(chk):
     chk.guard(variants.apply, chk, "C06-R6", [("irispie.simultaneous._simulate", "Inlay.simulate")])
     from .. import unused as _unused
     chk.guard(_unused.apply, chk, "C06-R91")
+    from .. import slatables as _slatables
+    chk.guard(_slatables.apply, chk, "C06-R12", (("irispie.simultaneous._slatable_protocols", "_slatable_for_simulate_or_kalman_filter"),))
     from .. import endpoints as _endpoints
     chk.guard(_endpoints.apply, chk, "C06-R11", {"stacked_time", "fords", "dataslates", "frames", "plans", "simultaneous", "period_by_period"})
     from .. import once as _once
